@@ -317,6 +317,7 @@ func ruleC04(c *Check) {
 	c.slashEffective("C04.6", ss)
 	c.depositPairing("C04.4", ss...)
 	c.availabilityPairs("C04.5")
+	c.startRules("C04")
 }
 
 func (c *Check) triggerShape(trig FactSet) (string, bool) {
